@@ -444,6 +444,12 @@ def _r6(run, fams):
                 continue
             done.add((fm.mod.name, fn.name))
             run.subject('C06-R6')
+            try:
+                # private reading helpers of the module are part of the getter
+                from ..inline import flatten, module_lookup
+                fn = flatten(fn, module_lookup(fm.mod))
+            except Exception:
+                pass
             opens = [n for n in ast.walk(fn) if isinstance(n, ast.Call) and dotted(n.func) == 'open']
             tries = [n for n in ast.walk(fn) if isinstance(n, ast.Try)]
             K = '%s|%s|' % (fm.mod.name, fn.name)
@@ -486,6 +492,17 @@ def _r6(run, fams):
                              % (fn.name, sorted(caught), sorted(need - caught)))
                     ok = False
                 if fm.rmw:
+                    # the content that is indexed is the plain mapping json.load returns: an auto-vivifying RecursiveDict creates the
+                    # missing key instead of raising
+                    for s in ast.walk(t):
+                        if isinstance(s, ast.Assign) and isinstance(s.value, ast.Call) and (dotted(s.value.func) or '').split('.')[0] == 'RecursiveDict' \
+                                and any(isinstance(c_, ast.Call) and dotted(c_.func) == 'json.load' for c_ in ast.walk(s.value)) \
+                                and any(isinstance(n_, ast.Subscript) and norm(n_.value).split('[')[0] == norm(s.targets[0]) and isinstance(n_.ctx, ast.Load)
+                                        for n_ in ast.walk(fn)):
+                            run.fail('C06-R6', K + 'autovivifying-content', fm.mod.relpath, s.lineno,
+                                     '%s indexes %s: a RecursiveDict creates a missing key instead of raising KeyError, so a key that was never '
+                                     'written yields an empty mapping, not RuntimeError' % (fn.name, norm(s.value)[:60]))
+                            ok = False
                     # every key lookup on the loaded content happens inside the try body
                     loaded_names = {norm(s.targets[0]) for s in ast.walk(t) if isinstance(s, ast.Assign) and isinstance(s.value, ast.Call)
                                     and dotted(s.value.func) == 'json.load'}
